@@ -882,7 +882,7 @@ fn repro_of(bytes: &[u8]) -> String {
 }
 
 /// Decodes through all three entry points and checks the C06 clauses.
-fn check_bytes(run: &mut Run, id: &str, bytes: &[u8], check_path: bool) {
+pub fn check_bytes(run: &mut Run, id: &str, bytes: &[u8], check_path: bool) {
     let via_bytes = decode_bytes(bytes);
     let map = match via_bytes {
         Err(p) => {
